@@ -131,7 +131,13 @@ namespace Pistache::Http
         for (const auto& idlePeer : idlePeers)
         {
             ResponseWriter response(Http::Version::Http11, this, static_cast<Http::Handler*>(handler_.get()), idlePeer);
-            response.send(Http::Code::Request_Timeout).then([=](ssize_t) { removePeer(idlePeer); }, [=](std::exception_ptr) { removePeer(idlePeer); });
+            // the handler was told of the connection: tell it that it is gone, as
+            // for any other disconnection
+            auto disconnect = [=]() {
+                handler_->onDisconnection(idlePeer);
+                removePeer(idlePeer);
+            };
+            response.send(Http::Code::Request_Timeout).then([=](ssize_t) { disconnect(); }, [=](std::exception_ptr) { disconnect(); });
         }
     }
 
